@@ -294,7 +294,12 @@ func run(env *simrt.Env, sci interface{}) {
 	case "udp":
 		simnet.Reset(env.Stamp)
 		laddr := &net.UDPAddr{IP: net.IPv4(127, 0, 0, 1), Port: 7000}
-		l, err := (&udp.ListenConfig{Backlog: 4}).Listen("udp", laddr)
+		lcfg := &udp.ListenConfig{Backlog: 4}
+		if len(sc.Ops[0])%2 == 0 {
+			// batch mode: a writer goroutine flushes queued datagrams on a ticker
+			lcfg.Batch = udp.BatchIOConfig{Enable: true, ReadBatchSize: 2, WriteBatchSize: 3, WriteBatchInterval: 200 * time.Microsecond}
+		}
+		l, err := lcfg.Listen("udp", laddr)
 		if err != nil {
 			env.Infra("Listen: %v", err)
 			return
@@ -354,6 +359,7 @@ func run(env *simrt.Env, sci interface{}) {
 			}
 		})
 		env.Join(hs...)
+		env.Sleep(time.Millisecond) // in batch mode the flush ticker gets a few turns
 		_ = l.Close()
 		env.Join(acceptor)
 		for _, c := range conns {
